@@ -230,6 +230,16 @@ const c08GitLog = `[a1b2c3d] Ann 2020-01-01 feat: add files
 5	0	z.txt
  create mode 100644 z.txt
 
+[f6a7b8c] Ann 2020-01-05 fix: move a file the log has not seen before
+0	0	legacy/{old.txt => new.txt}
+2	0	legacy/old.txt
+0	0	vendor/lib.txt => third_party/lib.txt
+1	0	vendor/lib.txt
+ rename legacy/{old.txt => new.txt} (100%)
+ create mode 100644 legacy/old.txt
+ rename vendor/lib.txt => third_party/lib.txt (100%)
+ create mode 100644 vendor/lib.txt
+
 `
 
 const c08GoSrc = `package p
